@@ -20,6 +20,15 @@ Inductive collector :=
 | CSplitWhere (p : lam)
 | CSliceWhere (p : lam).
 
+(* lazy groups a selectMany selector can return: the group is itself an iterator, consumed only as far as the consumer asks *)
+Inductive gsel :=
+| GSeq                                   (* sequence($): endless $, $+1, ... (not instrumented) *)
+| GRange                                 (* range($) *)
+| GRepeat (n : option nat)               (* $.repeat(n) / $.repeat() *)
+| GHost (k : Z)                          (* a second instrumented host iterator held in a context variable *)
+| GHostMap (k : Z) (f : lam)             (* $grp.select(f) *)
+| GHostFilter (k : Z) (p : lam).         (* $grp.where(p) *)
+
 Inductive it :=
 | Src (k : Z)                                   (* endless instrumented source k, k+1, ... *)
 | OfList (l : list val)
@@ -51,7 +60,20 @@ Inductive it :=
 | Flatten (i : it)
 | ZipLongest (fill : val) (l : list (option it))
 | Generate (cur : val) (started : bool) (p f : lam) (sel : option lam) (seen : option (list val))
-| GenMany (queue : list val) (bound : Z) (sel : option lam) (seen : option (list val)) (depth_first : bool).
+| GenMany (queue : list val) (bound : Z) (sel : option lam) (seen : option (list val)) (depth_first : bool)
+| Count (k : Z)                                 (* sequence(k): k, k+1, ... without instrumentation *)
+| SelectManyG (g : gsel) (i : it).              (* selectMany whose selector returns a LAZY group *)
+
+Definition gsel_it (g : gsel) (x : val) : it :=
+  match g, x with
+  | GSeq, VInt z => Count z
+  | GRange, VInt z => OfList (range_l 0 z 1)
+  | GRepeat n, _ => Repeat x n
+  | GHost k, _ => Src k
+  | GHostMap k f, _ => Map f (Src k)
+  | GHostFilter k p, _ => Filter p (Src k)
+  | _, _ => FailIt ENoMatch
+  end.
 
 Inductive outcome := Yield (v : val) (i : it) | Done | Fail (e : err) | NoFuel.
 
@@ -237,6 +259,12 @@ Fixpoint next (fuel : nat) (s : st) (i : it) {struct fuel} : st * outcome :=
             end
         | r => r
         end
+    | Count k => (s, Yield (VInt k) (Count (k + 1)))
+    | SelectManyG g j =>
+        match next fu s j with
+        | (s1, Yield x j') => next fu (tick s1) (Chain (gsel_it g x) (SelectManyG g j'))
+        | r => r
+        end
     | Join p f l2 (Some (x, y :: r)) j =>
         if truthy (apply2 p x y) then (tick (tick s), Yield (apply2 f x y) (Join p f l2 (Some (x, r)) j))
         else next fu (tick s) (Join p f l2 (Some (x, r)) j)
@@ -393,6 +421,110 @@ Inductive selfop :=
 | SelfFirstAll                     (* [$m.first(), $m.toList()] *)
 | SelfCountSum.                    (* [$m.count(), $m.sum(0)] *)
 
+(* ---- groupBy's aggregator protocol (queries.py GroupAggregator) ------------------------------------------------
+   Since 1.1.1 the aggregator receives the group's VALUE LIST and the entry is [key, aggregator(values)].  Before, it
+   received [key, values] and returned the whole entry.  The old style is still served by a fallback:
+     - state: the first failure (IndexError / NoMatchingMethod/Function) of a new-style attempt, and a flag "fallback still allowed";
+     - no failure so far: new-style attempt on the value list.  Success -> entry [key, result]; the flag is CLEARED unless
+       the group has exactly two values and the result is a non-string 2-sequence whose first item equals the group's
+       first value (only then could the call have been an old-style aggregator mistaking the values for [key, values]).
+       IndexError / NoMatchingMethod/Function -> recorded as the failure; any other error propagates;
+     - a failure recorded (now or on an earlier group): if the flag is still set, old-style attempt on [key, values];
+       a result of length 2 IS the entry; anything else (or any error), or the flag cleared -> the FIRST failure is raised.
+   The entries are produced lazily in group order, so the error surfaces after the entries of the earlier groups. *)
+Inductive gagg :=
+| GIdxPair        (* [$[0], $[1]] *)
+| GIdxLen         (* [$[0], $[1].len()] *)
+| GIdxSum         (* [$[0], $[1].sum()] *)
+| GThird          (* $[2] *)
+| GLenA           (* $.len() *)
+| GSumA           (* $.sum() *)
+| GFirstA         (* $.first() *)
+| GIdA.           (* $ *)
+
+Definition g_len (v : val) : res val :=
+  match v with
+  | VList _ l => Ok (VInt (Z.of_nat (length l)))
+  | VStr s => Ok (VInt (Z.of_nat (length s)))
+  | VDict _ d => Ok (VInt (Z.of_nat (length d)))
+  | _ => Err ENoMatch
+  end.
+Definition g_sum (v : val) : res val :=
+  match v with
+  | VList _ [] => Err EType
+  | VList _ (x :: t) => Ok (aggregate_seed (apply2 L2Add) x t)
+  | VDict _ _ => Unsupported
+  | _ => Err ENoMatch
+  end.
+Definition gapply (a : gagg) (x : val) : res val :=
+  match x with
+  | VList _ l =>
+      match a with
+      | GIdxPair => match l with u :: w :: _ => Ok (VList false [u; w]) | _ => Err EIndex end
+      | GIdxLen => match l with
+                   | u :: w :: _ => match g_len w with Ok n => Ok (VList false [u; n]) | e => e end
+                   | _ => Err EIndex end
+      | GIdxSum => match l with
+                   | u :: w :: _ => match g_sum w with Ok n => Ok (VList false [u; n]) | e => e end
+                   | _ => Err EIndex end
+      | GThird => match l with _ :: _ :: w :: _ => Ok w | _ => Err EIndex end
+      | GLenA => Ok (VInt (Z.of_nat (length l)))
+      | GSumA => g_sum x
+      | GFirstA => match l with u :: _ => Ok u | [] => Err EStop end
+      | GIdA => Ok (VList false l)
+      end
+  | _ => Unsupported
+  end.
+Definition g_caught (e : err) : bool := match e with EIndex | ENoMatch => true | _ => false end.
+(* could this successful call have been an old-style aggregator applied to a two-element value list? *)
+Definition looks_legacy (r : val) (vs : list val) : bool :=
+  match r, vs with
+  | VList _ [r0; _], [v0; _] => val_eqb r0 v0
+  | _, _ => false
+  end.
+Definition sized2 (r : val) : bool :=
+  match r with VList _ [_; _] | VStr [_; _] | VDict _ [_; _] => true | _ => false end.
+
+(* -> the entries produced, and the error that ends the sequence (if any); None: outside the modelled fragment *)
+Fixpoint gagg_run (a : gagg) (gs : list (val * list val)) (failure : option err) (allow : bool)
+  : option (list val * option err) :=
+  match gs with
+  | [] => Some ([], None)
+  | (k, vs) :: rest =>
+      match failure with
+      | Some f =>
+          if allow then
+            match gapply a (VList false [k; VList false vs]) with
+            | Ok r => if sized2 r
+                      then match gagg_run a rest (Some f) allow with
+                           | Some (o, e) => Some (r :: o, e) | None => None end
+                      else Some ([], Some f)
+            | Unsupported => None
+            | _ => Some ([], Some f)
+            end
+          else Some ([], Some f)
+      | None =>
+          match gapply a (VList false vs) with
+          | Ok r => match gagg_run a rest None (allow && looks_legacy r vs) with
+                    | Some (o, e) => Some (VList false [k; r] :: o, e) | None => None end
+          | Err f =>
+              if g_caught f then
+                if allow then
+                  match gapply a (VList false [k; VList false vs]) with
+                  | Ok r => if sized2 r
+                            then match gagg_run a rest (Some f) allow with
+                                 | Some (o, e) => Some (r :: o, e) | None => None end
+                            else Some ([], Some f)
+                  | Unsupported => None
+                  | _ => Some ([], Some f)
+                  end
+                else Some ([], Some f)
+              else Some ([], Some f)
+          | _ => None
+          end
+      end
+  end.
+
 Inductive stage :=
 | SWhere (p : lam) | SSelect (f : lam) | SSelectMany (f : lam)
 | SSkip (n : Z) | STake (n : Z)
@@ -435,7 +567,9 @@ Inductive stage :=
 | SMergeWithX (d : kvs) (lm im : option lam2) (maxl : Z)
 | SSelf (op : selfop)
 | SAssertAny                                    (* .assert($.any()): memorizes an iterator, looks at its first element *)
-| SGroupByAggP (k : lam) (v : option lam) (agg : list stage) (term : nat).   (* aggregator: $ + pipeline + count / sum(0) / first(null) / toList *)
+| SGroupByAggP (k : lam) (v : option lam) (agg : list stage) (term : nat)    (* aggregator: $ + pipeline + count / sum(0) / first(null) / toList *)
+| SSelectManyG (g : gsel)                       (* selectMany with a selector that returns a lazy group *)
+| SGroupByG (k : lam) (v : option lam) (a : gagg) (fallback : bool).   (* groupBy's aggregator protocol, group by group *)
 
 (* yaqltypes.Iterable(): tuples, lists, sets, iterators, OrderingIterable; not dicts *)
 Definition as_it (r : rv) : option it :=
@@ -851,6 +985,16 @@ Definition apply_stage (fuel : nat) (s : st) (sg : stage) (r : rv) : rr :=
                                     end))
                                 (group_by_l val_eqb (apply k)
                                             (fun x => match v with Some g => apply g x | None => x end) l)))
+        else (s1, Err EType))
+  | SSelectManyG g => with_it s r (fun i => ok_it s (SelectManyG g i))
+  | SGroupByG k v a fb =>
+      with_list fuel s r (fun s1 l =>
+        if forallb (fun x => hashable (apply k x)) l then
+          match gagg_run a (group_by_l val_eqb (apply k) (fun x => match v with Some g => apply g x | None => x end) l) None fb with
+          | Some (outs, None) => ok_it s1 (OfList outs)
+          | Some (outs, Some e) => ok_it s1 (Chain (OfList outs) (FailIt e))
+          | None => (s1, Unsupported)
+          end
         else (s1, Err EType))
   | SProject => with_it s r (fun i => ok_it s (Memo i))
   | SUnpackNamed n =>
